@@ -1,9 +1,114 @@
-(* C02 — temporary wiring: the tree-level semantics printed compactly *)
+(* C02 — wire functions.  Observation: (line mapdump): the JSON line of the entry and
+   the contents of a zapcore.MapObjectEncoder fed the same context + call-site fields.
+   The oracle is written against the tree-level reference semantics (Enc/JsonAst.v):
+   the line decodes (Enc/JsonParse.v) to exactly the reference members, and the map
+   encoder's record, each typed leaf replaced by its documented JSON representation,
+   is the last-write-wins view of the same tree. *)
 From Coq Require Import List ZArith Bool.
 From Coq.Strings Require Import Byte.
 Import ListNotations.
-From Zap Require Import Base.Wire Enc.Bytes Enc.Fields Enc.JsonEnc Enc.JsonParse Enc.WireEnc Enc.JsonAst.
+From Zap Require Import Base.Wire Enc.Bytes Enc.Fields Enc.JsonEnc Enc.JsonParse Enc.WireEnc Enc.JsonAst Enc.Wf Enc.MapEnc
+  Enc.Parse1 Enc.Parse3.
+
+(* ---- equality on decoded JSON ---- *)
+Fixpoint jv_eqb (a b : jv) {struct a} : bool :=
+  match a, b with
+  | JNull, JNull => true
+  | JBool x, JBool y => Bool.eqb x y
+  | JNum x, JNum y => bytes_eqb x y
+  | JStr x, JStr y => bytes_eqb x y
+  | JArr x, JArr y =>
+      (fix go (x y : list jv) {struct x} : bool :=
+         match x, y with [], [] => true | a :: x', b :: y' => jv_eqb a b && go x' y' | _, _ => false end) x y
+  | JObj x, JObj y =>
+      (fix go (x y : list (bytes * jv)) {struct x} : bool :=
+         match x, y with [], [] => true | (k, a) :: x', (k', b) :: y' => bytes_eqb k k' && jv_eqb a b && go x' y' | _, _ => false end) x y
+  | _, _ => false
+  end.
+
+(* ---- wire form of map dumps ---- *)
+Definition enc_fv (f : fv) : sx :=
+  SL [SZ (match fcls f with FNaN => 0 | FPInf => 1 | FNInf => 2 | FFin => 3 end); SB (ftxt f)].
+Definition enc_rend (r : rend) : sx :=
+  match r with RFloat f => SL [SZ 0; enc_fv f] | RInt z => SL [SZ 1; SZ z] | RStr s => SL [SZ 2; SB s] | RLayout s => SL [SZ 3; SB s] end.
+Definition enc_leaf (l : leaf) : sx :=
+  match l with
+  | LBool b => SL [SZ 0; of_bool b] | LInt z => SL [SZ 1; SZ z] | LUint z => SL [SZ 2; SZ z]
+  | LFloat f => SL [SZ 3; enc_fv f] | LStr s => SL [SZ 4; SB s] | LBin s => SL [SZ 5; SB s]
+  | LCplx re im g => SL [SZ 6; enc_fv re; enc_fv im; of_bool g]
+  | LDur d => SL [SZ 7; SL [SZ (d_nanos d); enc_rend (d_rend d)]]
+  | LTime t => SL [SZ 8; SL [SZ (t_nanos t); enc_rend (t_rend t)]]
+  | LRefl r => SL [SZ 9; match r with RNil => SL [SZ 0] | ROk t => SL [SZ 1; SB t] | RErr m => SL [SZ 2; SB m] end]
+  end.
+Definition enc_atom (a : atom) : sx :=
+  match a with
+  | ANum t => SL [SZ 0; SB t] | AStr s => SL [SZ 1; SB s] | AQ b => SL [SZ 2; SB b]
+  | ATrue => SL [SZ 3] | AFalse => SL [SZ 4] | ARaw t => SL [SZ 5; SB t]
+  end.
+Fixpoint enc_mtree {A} (f : A -> sx) (t : mtree A) {struct t} : sx :=
+  match t with
+  | ML a => f a
+  | MA l => SL [SZ 20; SL ((fix go (l : list (mtree A)) := match l with [] => [] | x :: r => enc_mtree f x :: go r end) l)]
+  | MO l => SL [SZ 21; SL ((fix go (l : list (bytes * mtree A)) := match l with [] => [] | (k, x) :: r => SL [SB k; enc_mtree f x] :: go r end) l)]
+  end.
+Definition dec_leaf (s : sx) : leaf :=
+  let a := sx_nth s 1 in
+  match sx_z (sx_nth s 0) with
+  | 0%Z => LBool (sx_bool a) | 1%Z => LInt (sx_z a) | 2%Z => LUint (sx_z a) | 3%Z => LFloat (dec_fv a)
+  | 4%Z => LStr (sx_b a) | 5%Z => LBin (sx_b a)
+  | 6%Z => LCplx (dec_fv a) (dec_fv (sx_nth s 2)) (sx_bool (sx_nth s 3))
+  | 7%Z => LDur (dec_dv a) | 8%Z => LTime (dec_tv a) | _ => LRefl (dec_rv a)
+  end.
+Fixpoint dec_mtree (fuel : nat) (s : sx) : mtree leaf :=
+  match fuel with
+  | O => MA []
+  | S f =>
+      match sx_z (sx_nth s 0) with
+      | 20%Z => MA (map (dec_mtree f) (sx_l (sx_nth s 1)))
+      | 21%Z => MO (map (fun e => (sx_b (sx_nth e 0), dec_mtree f (sx_nth e 1))) (sx_l (sx_nth s 1)))
+      | _ => ML (dec_leaf s)
+      end
+  end.
+
+(* ---- the case ---- *)
+Definition all_fields (ec : ecase) : list fld := concat (ec_ctxs ec) ++ ec_fs ec.
+Fixpoint has_refl_err_fld (f : fld) {struct f} : bool :=
+  match f with
+  | FReflect _ (RErr _) => true
+  | FObject _ m | FInline m => has_refl_err_obj m
+  | FArray _ a => has_refl_err_arr a
+  | _ => false
+  end
+with has_refl_err_obj (m : objm) {struct m} : bool :=
+  match m with Obj calls _ => (fix go (l : list fld) := match l with [] => false | f :: r => has_refl_err_fld f || go r end) calls end
+with has_refl_err_arr (a : arrm) {struct a} : bool :=
+  match a with Arr es _ _ => (fix go (l : list elem) := match l with [] => false | e :: r => has_refl_err_elem e || go r end) es end
+with has_refl_err_elem (e : elem) {struct e} : bool :=
+  match e with ERefl (RErr _) => true | EObj m => has_refl_err_obj m | EArr a => has_refl_err_arr a | _ => false end.
+
 Definition model (i : sx) : sx :=
   let ec := dec_case i in let c := ec_cfg ec in
-  SL [SB (pv false (TObj (entry_members c (ec_ctxs ec) (ec_ent ec) (ec_fs ec))) ++ resolved_le c)].
-Definition spec (i o : sx) : bool := true.
+  match encode_entry c false (with_chain c false (ec_ctxs ec)) (ec_ent ec) (ec_fs ec) with
+  | Some out => SL [SB out; enc_mtree enc_leaf (msort (MO (map_encode (all_fields ec))))]
+  | None => SL []
+  end.
+
+Definition spec (i o : sx) : bool :=
+  let ec := dec_case i in let c := ec_cfg ec in
+  match sx_l o with
+  | [SB out; dump] =>
+      (* the line decodes to exactly the reference members: order, nesting, values *)
+      match line_obj (resolved_le c) out with
+      | Some ms => jv_eqb (JObj ms) (JObj (jv_mem (entry_members c (ec_ctxs ec) (ec_ent ec) (ec_fs ec))))
+      | None => false
+      end &&
+      (* the map encoder agrees with the last-write-wins view of the same tree (a reflected value
+         that encoding/json rejects is stored raw by the map encoder and has no JSON form: not compared) *)
+      (if existsb has_refl_err_fld (all_fields ec) then true else
+       sx_eqb (enc_mtree enc_atom (msort (mmap (leaf_atom c) (dec_mtree (sx_size dump) dump))))
+              (enc_mtree enc_atom (msort (viewT (TObj (close (ev_flds c (ec_fs ec) (ev_with_chain c (ec_ctxs ec)))))))))
+  | _ => false
+  end.
+
+Definition wf (i : sx) : bool :=
+  let ec := dec_case i in forallb wf_flds (ec_ctxs ec) && wf_flds (ec_fs ec) && wf_entry (ec_ent ec).
